@@ -129,6 +129,51 @@ def _convert(stmts, sink, in_loop=False):
     return out, False
 
 
+def _convert_default_first(stmts, sink):
+    """for a body that ends in `return <constant K>` and whose other returns all sit in tail position of if / with / try blocks (nothing
+    but leaving those blocks happens after them): `result = K` first, then the body with every `return e` replaced by `result = e`.
+    Handlers that fall through set the result back to K, which is what reaching the final return meant (a handler can run after a
+    return only when leaving a `with` raised)."""
+    if len(stmts) < 2 or not isinstance(stmts[-1], ast.Return):
+        raise NotInlinable("no final return")
+    k = stmts[-1].value if stmts[-1].value is not None else ast.Constant(value=None)
+    if not isinstance(k, ast.Constant):
+        raise NotInlinable("final return is not a constant")
+
+    def conv_block(block):
+        if not block:
+            return []
+        for st in block[:-1]:
+            if _contains_return(st):
+                raise NotInlinable("return not in tail position")
+        return list(block[:-1]) + conv_tail(block[-1])
+
+    def conv_tail(st):
+        if isinstance(st, ast.Return):
+            return sink(st.value if st.value is not None else ast.Constant(value=None))
+        if not _contains_return(st):
+            return [st]
+        if isinstance(st, ast.If):
+            return [ast.If(test=st.test, body=conv_block(st.body) or [ast.Pass()], orelse=conv_block(st.orelse))]
+        if isinstance(st, ast.With):
+            new = copy.copy(st)
+            new.body = conv_block(st.body)
+            return [new]
+        if isinstance(st, ast.Try) and not st.finalbody and not st.orelse:
+            hs = []
+            for h in st.handlers:
+                if any(_contains_return(x) for x in h.body):
+                    if not _always_returns(h.body):
+                        raise NotInlinable("handler returns on some paths only")
+                    hb = conv_block(h.body)
+                else:
+                    hb = [x for x in h.body if not isinstance(x, ast.Pass)] + sink(copy.deepcopy(k))
+                hs.append(ast.ExceptHandler(type=h.type, name=h.name, body=hb))
+            return [ast.Try(body=conv_block(st.body), handlers=hs, orelse=[], finalbody=[])]
+        raise NotInlinable("return inside %s" % type(st).__name__)
+    return sink(copy.deepcopy(k)) + conv_block(list(stmts[:-1])), True
+
+
 class _Rename(ast.NodeTransformer):
     def __init__(self, mapping, subst):
         self.mapping, self.subst = mapping, subst
@@ -169,6 +214,22 @@ class _Simplify(ast.NodeTransformer):
         return node
 
 
+def _fold_returns(stmts, depth=0):
+    """the value returned by a block made only of returns and ifs around returns, as one (conditional) expression; None otherwise"""
+    if not stmts or depth > 4:
+        return None
+    st = stmts[0]
+    if isinstance(st, ast.Return):
+        return st.value if st.value is not None else ast.Constant(value=None)
+    if isinstance(st, ast.If):
+        a = _fold_returns(st.body, depth + 1)
+        b = _fold_returns(list(st.orelse) + list(stmts[1:]), depth + 1)
+        if a is None or b is None:
+            return None
+        return ast.IfExp(test=st.test, body=a, orelse=b)
+    return None
+
+
 def _simple(e):
     if isinstance(e, (ast.Name, ast.Constant)):
         return True
@@ -189,13 +250,18 @@ def _prepare(h):
     if a.vararg or a.kwarg or a.kwonlyargs or a.posonlyargs:
         raise NotInlinable("signature")
     for n in _own_walk(node):
-        if isinstance(n, (ast.Yield, ast.YieldFrom, ast.Await, ast.Global, ast.Nonlocal)):
-            raise NotInlinable("generator / global")
+        if isinstance(n, (ast.Yield, ast.YieldFrom, ast.Await, ast.Nonlocal)):
+            raise NotInlinable("generator / nonlocal")
     if any(isinstance(n, (ast.FunctionDef, ast.AsyncFunctionDef, ast.ClassDef)) for n in ast.walk(node) if n is not node):
         raise NotInlinable("nested definitions")
     if any(isinstance(n, ast.Call) and isinstance(n.func, (ast.Name, ast.Attribute)) and ast.unparse(n.func).split(".")[-1] == node.name for n in ast.walk(node)):
         raise NotInlinable("recursive")
     body = [s for s in node.body if not (isinstance(s, ast.Expr) and isinstance(s.value, ast.Constant) and isinstance(s.value.value, str))]
+    # `global X` at the top of the helper: X keeps its name; the caller (same module) gets the declaration (see _globals_of)
+    gl = _globals_of(h)
+    if any(isinstance(n, ast.Global) for s in body if not isinstance(s, ast.Global) for n in ast.walk(s)):
+        raise NotInlinable("global declared inside a block")
+    body = [s for s in body if not isinstance(s, ast.Global)]
     params = [x.arg for x in a.args]
     defaults = dict(zip(params[len(params) - len(a.defaults):], a.defaults))
     assigned = set()
@@ -204,7 +270,18 @@ def _prepare(h):
             assigned.add(n.id)
         elif isinstance(n, ast.ExceptHandler) and n.name:
             assigned.add(n.name)
+    if gl & set(params):
+        raise NotInlinable("parameter declared global")
+    assigned -= gl
     return params, defaults, body, assigned
+
+
+def _globals_of(h):
+    return {nm for s in h.node.body if isinstance(s, ast.Global) for nm in s.names}
+
+
+def _globals_in_order(h):
+    return [nm for s in h.node.body if isinstance(s, ast.Global) for nm in s.names]
 
 
 def _instantiate(h, call, receiver, counter):
@@ -260,6 +337,7 @@ def build_overlay(ctx):
         return {}, set()
     touched = set()
     counter = [0]
+    pending_globals = {}
 
     def receiver_of(call):
         f_ = call.func
@@ -281,6 +359,17 @@ def build_overlay(ctx):
         h = target[id(call)]
         if h.key == owner.key:
             return None
+        gl = _globals_of(h)
+        if gl:
+            # the names must mean the same module's globals in the caller, and the caller must not use them as locals
+            if h.module is not owner.module or not isinstance(owner.node, ast.FunctionDef) or owner.parent is not None:
+                return None
+            declared = {nm for s_ in owner.node.body if isinstance(s_, ast.Global) for nm in s_.names} | set(pending_globals.get(owner.key, []))
+            local_use = {n.id for n in _own_walk(owner.node) if isinstance(n, ast.Name) and isinstance(n.ctx, (ast.Store, ast.Del))} | set(owner.params())
+            if (gl - declared) & local_use:
+                return None
+            pending_globals.setdefault(owner.key, [])
+            pending_globals[owner.key] += [g_ for g_ in _globals_in_order(h) if g_ not in declared and g_ not in pending_globals[owner.key]]
         try:
             counter[0] += 1
             pro, body = _instantiate(h, call, receiver_of(call), counter[0])
@@ -291,10 +380,23 @@ def build_overlay(ctx):
             else:
                 if kind == "assign":
                     tgt = st.targets[0]
-                    sink = lambda e: [ast.Assign(targets=[copy.deepcopy(tgt)], value=e if e is not None else ast.Constant(value=None))]
+                    def sink(e, tgt=tgt):
+                        e = e if e is not None else ast.Constant(value=None)
+                        # `a, b = (x, y)` written as `a = x`, `b = y` when no target is read by another element
+                        if isinstance(tgt, ast.Tuple) and isinstance(e, ast.Tuple) and len(tgt.elts) == len(e.elts) \
+                                and all(isinstance(t_, ast.Name) for t_ in tgt.elts):
+                            names = [t_.id for t_ in tgt.elts]
+                            clash = any(isinstance(x, ast.Name) and x.id in names and x.id != names[i]
+                                        for i, v_ in enumerate(e.elts) for x in ast.walk(v_))
+                            if not clash and len(set(names)) == len(names):
+                                return [ast.Assign(targets=[copy.deepcopy(t_)], value=v_) for t_, v_ in zip(tgt.elts, e.elts)]
+                        return [ast.Assign(targets=[copy.deepcopy(tgt)], value=e)]
                 else:
                     sink = lambda e: [ast.Expr(value=e)] if e is not None else []
-                conv, term = _convert(body, sink)
+                try:
+                    conv, term = _convert(body, sink)
+                except NotInlinable:
+                    conv, term = _convert_default_first(body, sink)
                 if not term and kind == "assign":
                     conv = conv + sink(None)
                 out = pro + conv
@@ -307,9 +409,78 @@ def build_overlay(ctx):
                     ast.copy_location(y, st)
         return out or [ast.Pass()]
 
+    def hoist(st, owner):
+        """`x = a + h(..)` -> `t = h(..)`, `x = a + t` when h is a statement-bodied new helper whose call is evaluated unconditionally and
+        everything the statement evaluates before it is a local name or a constant (so evaluating the call first changes nothing)"""
+        fld = "test" if isinstance(st, ast.If) else "value"
+        if not isinstance(st, (ast.Assign, ast.AugAssign, ast.Return, ast.Expr, ast.If)) or getattr(st, fld) is None:
+            return None
+        top = getattr(st, fld)
+        found = []
+
+        def visit(e, safe):
+            """walk in evaluation order; `safe` = nothing with an effect or a heap read was evaluated before"""
+            if isinstance(e, ast.Call) and id(e) in target and (e is not top or fld == "test"):
+                if safe and expr_template(target[id(e)]) is None and target[id(e)].key != owner.key:
+                    found.append(e)
+                return False
+            if isinstance(e, (ast.Name, ast.Constant)):
+                return safe
+            if isinstance(e, ast.BinOp):
+                s1 = visit(e.left, safe)
+                return visit(e.right, s1)
+            if isinstance(e, ast.UnaryOp):
+                return visit(e.operand, safe)
+            if isinstance(e, ast.Yield) and e.value is not None and e is top:
+                visit(e.value, safe)
+                return False
+            if isinstance(e, ast.BoolOp):
+                visit(e.values[0], safe)        # only the first operand is evaluated whatever the others are
+                return False
+            if isinstance(e, (ast.Tuple, ast.List)):
+                for x in e.elts:
+                    safe = visit(x, safe)
+                return safe
+            if isinstance(e, ast.Call) and not any(isinstance(a_, ast.Starred) for a_ in e.args) and all(k.arg for k in e.keywords):
+                if isinstance(e.func, ast.Attribute):
+                    safe = visit(e.func.value, safe)
+                elif not isinstance(e.func, ast.Name):
+                    return False
+                for x in list(e.args) + [k.value for k in e.keywords]:
+                    safe = visit(x, safe)
+                return False            # the call itself may do anything: nothing after it is hoisted
+            return False
+        visit(top, True)
+        if len(found) != 1:
+            return None
+        call = found[0]
+        counter[0] += 1
+        tmp = "_%s_value%d" % (target[id(call)].node.name.strip("_"), counter[0])
+        new_call = ast.Call(func=call.func, args=call.args, keywords=call.keywords)
+        ast.copy_location(new_call, call)
+        target[id(new_call)] = target[id(call)]
+        pre = ast.copy_location(ast.Assign(targets=[ast.Name(id=tmp, ctx=ast.Store())], value=new_call), st)
+
+        class Repl(ast.NodeTransformer):
+            def visit_Call(self, node):
+                if node is call:
+                    return ast.copy_location(ast.Name(id=tmp, ctx=ast.Load()), node)
+                return self.generic_visit(node)
+        setattr(st, fld, Repl().visit(top))
+        return [pre, st]
+
     def rewrite_block(stmts, owner):
         changed = False
         out = []
+        work = list(stmts)
+        stmts = []
+        for st in work:
+            h2 = hoist(st, owner)
+            if h2:
+                stmts += h2
+                changed = True
+            else:
+                stmts.append(st)
         for st in stmts:
             rep = splice(st, owner)
             if rep is not None:
@@ -338,6 +509,15 @@ def build_overlay(ctx):
             params, defaults, body, assigned = _prepare(h)
         except NotInlinable:
             return None
+        # guard clauses (`if c: return A` ... `return B`, `if c: return A else: return B`) are one conditional expression
+        k_ = 0
+        while k_ < len(body) and isinstance(body[k_], ast.Assign):
+            k_ += 1
+        if k_ < len(body) - 1 or (body and isinstance(body[-1], ast.If)):
+            folded = _fold_returns(body[k_:])
+            if folded is None:
+                return None
+            body = body[:k_] + [ast.Return(value=folded)]
         lets = body[:-1]
         if not body or not isinstance(body[-1], ast.Return) or body[-1].value is None or len(lets) > 3 or not all(
                 isinstance(l_, ast.Assign) and len(l_.targets) == 1 and isinstance(l_.targets[0], ast.Name) for l_ in lets):
@@ -390,27 +570,156 @@ def build_overlay(ctx):
                 if not _simple(v_) and uses > 1:
                     return node
             sub = dict(m)
+            # names the helper's expression binds itself (comprehension variables) must not capture names of the arguments
+            counter[0] += 1
+            let_names = {l_.targets[0].id for l_ in lets}
+            bound_here = {x.id for y in [expr] + [l_.value for l_ in lets] for x in ast.walk(y)
+                          if isinstance(x, ast.Name) and isinstance(x.ctx, ast.Store)} - let_names
+            if bound_here & set(m):
+                return node
+            ren = {b_: "%s_%s%d" % (b_, h.node.name.strip("_"), counter[0]) for b_ in bound_here}
             for l_ in lets:
-                sub[l_.targets[0].id] = _Rename({}, sub).visit(copy.deepcopy(l_.value))
+                sub[l_.targets[0].id] = _Rename(ren, sub).visit(copy.deepcopy(l_.value))
             self.changed = True
-            return ast.copy_location(_Simplify().visit(_Rename({}, sub).visit(copy.deepcopy(expr))), node)
+            return ast.copy_location(_Simplify().visit(_Rename(ren, sub).visit(copy.deepcopy(expr))), node)
+
+    def tail_if(f):
+        """the function ends in `if [not] h(..): B [else: O]` with h a statement-bodied new helper: h's body is written out with every
+        `return e` replaced by the branch e selects followed by `return` - the flag-free form of the same control flow (what the code
+        looked like before a predicate-with-side-effects was extracted)"""
+        body = f.node.body
+        if not body or not isinstance(body[-1], ast.If):
+            return False
+        st = body[-1]
+        neg = isinstance(st.test, ast.UnaryOp) and isinstance(st.test.op, ast.Not)
+        call = st.test.operand if neg else st.test
+        if not (isinstance(call, ast.Call) and id(call) in target):
+            return False
+        h = target[id(call)]
+        if h.key == f.key or expr_template(h) is not None:
+            return False
+        if any(isinstance(n, (ast.Return, ast.Yield, ast.YieldFrom)) for b_ in (st.body, st.orelse) for x in b_ for n in ast.walk(x)):
+            return False
+        if any(isinstance(n, ast.Return) and n.value is not None for n in _own_walk(f.node)):
+            return False            # the function must return None on every path for `return` to stand for "falls off the end"
+        gl = _globals_of(h)
+        if gl:
+            if h.module is not f.module or f.parent is not None:
+                return False
+            declared = {nm for s_ in body if isinstance(s_, ast.Global) for nm in s_.names}
+            local_use = {n.id for n in _own_walk(f.node) if isinstance(n, ast.Name) and isinstance(n.ctx, (ast.Store, ast.Del))} | set(f.params())
+            if (gl - declared) & local_use:
+                return False
+        try:
+            counter[0] += 1
+            pro, hb = _instantiate(h, call, receiver_of(call), counter[0])
+        except NotInlinable:
+            return False
+        if gl:
+            pending_globals.setdefault(f.key, [])
+            pending_globals[f.key] += [g_ for g_ in _globals_in_order(h) if g_ not in declared and g_ not in pending_globals[f.key]]
+
+        def cont(e):
+            if isinstance(e, ast.Constant):
+                truth = bool(e.value) != neg
+                return [copy.deepcopy(x) for x in (st.body if truth else st.orelse)]
+            t = ast.UnaryOp(op=ast.Not(), operand=e) if neg else e
+            return [ast.If(test=t, body=[copy.deepcopy(x) for x in st.body], orelse=[copy.deepcopy(x) for x in st.orelse])]
+
+        def conv(stmts):
+            out = []
+            for x in stmts:
+                if isinstance(x, ast.Return):
+                    out += cont(x.value if x.value is not None else ast.Constant(value=None)) + [ast.Return(value=None)]
+                    continue
+                for fld in ("body", "orelse", "finalbody"):
+                    sub = getattr(x, fld, None)
+                    if isinstance(sub, list) and sub and isinstance(sub[0], ast.stmt):
+                        setattr(x, fld, conv(sub))
+                if isinstance(x, ast.Try):
+                    for h_ in x.handlers:
+                        h_.body = conv(h_.body)
+                out.append(x)
+            return out
+        new = pro + conv(hb)
+        if not _always_returns(hb):
+            new += cont(ast.Constant(value=None))
+        # copies of B made for several return sites: their calls of new helpers stay known to the later passes
+        orig = {}
+        for b_ in (st.body, st.orelse):
+            for x in b_:
+                for n in ast.walk(x):
+                    if isinstance(n, ast.Call) and id(n) in target:
+                        orig.setdefault(ast.dump(n), target[id(n)])
+        for x in new:
+            for n in ast.walk(x):
+                if isinstance(n, ast.Call) and id(n) not in target and ast.dump(n) in orig:
+                    target[id(n)] = orig[ast.dump(n)]
+        for x in new:
+            ast.copy_location(x, st)
+            for y in ast.walk(x):
+                if not hasattr(y, "lineno"):
+                    ast.copy_location(y, st)
+        if new and isinstance(new[-1], ast.Return) and new[-1].value is None:
+            new = new[:-1]          # falling off the end says the same
+        f.node.body = body[:-1] + (new or [ast.Pass()])
+        return True
 
     by_module = {}
-    for fk, f in ix.funcs.items():
+    for fk, f in list(ix.funcs.items()):
+        if f.qual == "<module>":
+            # import-time code: only one-expression helpers are written out
+            if any(id(n) in target for n in _own_walk(f.node)):
+                ei = _ExprInline(f)
+                ei.visit(f.node)
+                if ei.changed:
+                    touched.add(fk)
+                    by_module[f.module.rel] = f.module
+            continue
         if isinstance(f.node, ast.Lambda) or f.qual == "<module>" or not isinstance(f.node, ast.FunctionDef):
             continue
         if not any(id(n) in target for n in _own_walk(f.node)):
             continue
+        tailed = tail_if(f)
         nb, ch = rewrite_block(f.node.body, f)          # the index's trees are private to this run: edited in place
+        if pending_globals.get(fk):
+            k_ = 1 if nb and isinstance(nb[0], ast.Expr) and isinstance(nb[0].value, ast.Constant) and isinstance(nb[0].value.value, str) else 0
+            nb = nb[:k_] + [ast.Global(names=list(pending_globals[fk]))] + nb[k_:]
         f.node.body = nb
         ei = _ExprInline(f)
         ei.visit(f.node)
-        ch = ch or ei.changed
+        ch = ch or ei.changed or tailed
         if ch:
             touched.add(fk)
             by_module[f.module.rel] = f.module
+    # a helper every call of which was written out, and whose name occurs nowhere else, is dead: it is left out of the overlay (as a
+    # separate function it would only be an extra, caller-less caller of whatever it calls)
+    if by_module:
+        used = {}
+        for m in ix.modules.values():
+            for n in ast.walk(m.tree):
+                if isinstance(n, ast.Name):
+                    used[n.id] = used.get(n.id, 0) + 1
+                elif isinstance(n, ast.Attribute):
+                    used[n.attr] = used.get(n.attr, 0) + 1
+                elif isinstance(n, ast.Constant) and isinstance(n.value, str) and n.value.isidentifier():
+                    used[n.value] = used.get(n.value, 0) + 1        # getattr(obj, "name")
+                elif isinstance(n, ast.alias):
+                    used[n.name.split(".")[-1]] = used.get(n.name.split(".")[-1], 0) + 1
+        for k in sorted(new):
+            h = ix.funcs[k]
+            nm = h.node.name
+            if used.get(nm, 0) or not nm.startswith("_") or nm.startswith("__"):
+                continue
+            holder = h.cls.node.body if h.cls is not None else h.module.tree.body
+            if h.node in holder:
+                holder.remove(h.node)
+                if not holder:
+                    holder.append(ast.Pass())
+                by_module[h.module.rel] = h.module
     overlay = {}
     for rel, m in by_module.items():
+
         tree = m.tree if hasattr(m, "tree") else ctx.repo.ast(rel)
         ast.fix_missing_locations(tree)
         overlay[rel] = ast.unparse(tree) + "\n"
